@@ -6,42 +6,42 @@ cd "$(dirname "$0")" || exit 2
 export GOFLAGS=-mod=mod GOPROXY=off GOSUMDB=off GOTOOLCHAIN=local CGO_ENABLED=0
 : "${VERIF_ROOT:=$(pwd)}"; export VERIF_ROOT
 mkdir -p .bin
-MODFLAG=""
+MODFLAG=""; SUF=""
 if [ -n "$VERIF_REPO" ] && [ "$VERIF_REPO" != "/repo" ]; then
 	# selftest only: build against a scratch copy of the tree (mutants, candidate fixes)
-	sed "s#=> /repo#=> $VERIF_REPO#" go.mod > .bin/alt.mod
-	cp go.sum .bin/alt.sum
-	MODFLAG="-modfile=.bin/alt.mod"
-	BIN=".bin/ivgmc-alt"
+	SUF="-alt$VERIF_ALT_ID"
+	sed "s#=> /repo#=> $VERIF_REPO#" go.mod > ".bin/mod$SUF.mod"
+	cp go.sum ".bin/mod$SUF.sum"
+	MODFLAG="-modfile=.bin/mod$SUF.mod"
+	BIN=".bin/ivgmc$SUF"
 else
 	BIN=".bin/ivgmc"
 fi
 build() {
 	if [ -f inst/overlay.sh ]; then
-		sh inst/overlay.sh >/dev/null 2>.bin/overlay.log
+		sh inst/overlay.sh ".bin/overlay$SUF.json" >/dev/null 2>.bin/overlay.log
 	fi
-	if [ -f .bin/overlay.json ] && go build $MODFLAG -tags verif -overlay .bin/overlay.json -o $BIN ./cmd/ivgmc 2>.bin/build.log; then
+	if [ -f ".bin/overlay$SUF.json" ] && go build $MODFLAG -tags verif -overlay ".bin/overlay$SUF.json" -o $BIN ./cmd/ivgmc 2>.bin/build$SUF.log; then
 		return 0
 	fi
 	# fall back to the public API only (a refactored tree may not accept the export overlay)
-	go build $MODFLAG -o $BIN ./cmd/ivgmc 2>.bin/build.log
+	go build $MODFLAG -o $BIN ./cmd/ivgmc 2>.bin/build$SUF.log
 }
 if ! build; then
-	echo "HARNESS-ERROR: build failed"; cat .bin/build.log; exit 2
+	echo "HARNESS-ERROR: build failed"; cat .bin/build$SUF.log; exit 2
 fi
 # C18 needs two more binaries, both rebuilt from the current tree: the instrumented
 # build (scheduling points + shared-state census, generated overlay) and the -race build.
 build_c18() {
 	R="${VERIF_REPO:-/repo}"
-	go build -o .bin/ivginst ./cmd/ivginst 2>.bin/build-inst.log || return 1
-	.bin/ivginst "$R" ".bin/inst$SUF" ".bin/overlay-inst$SUF.json" .bin/overlay.json >>.bin/build-inst.log 2>&1 || return 1
-	go build $MODFLAG -tags "verif verifsched" -overlay ".bin/overlay-inst$SUF.json" -o ".bin/ivgmc-inst$SUF" ./cmd/ivgmc 2>>.bin/build-inst.log || return 1
-	CGO_ENABLED=1 go build $MODFLAG -race -o ".bin/ivgmc-race$SUF" ./cmd/ivgrace 2>.bin/build-race.log || return 1
+	go build -o ".bin/ivginst$SUF" ./cmd/ivginst 2>.bin/build-inst$SUF.log || return 1
+	".bin/ivginst$SUF" "$R" ".bin/inst$SUF" ".bin/overlay-inst$SUF.json" ".bin/overlay$SUF.json" >>.bin/build-inst$SUF.log 2>&1 || return 1
+	go build $MODFLAG -tags "verif verifsched" -overlay ".bin/overlay-inst$SUF.json" -o ".bin/ivgmc-inst$SUF" ./cmd/ivgmc 2>>.bin/build-inst$SUF.log || return 1
+	CGO_ENABLED=1 go build $MODFLAG -race -o ".bin/ivgmc-race$SUF" ./cmd/ivgrace 2>.bin/build-race$SUF.log || return 1
 }
-SUF=""; [ -n "$MODFLAG" ] && SUF="-alt"
 if [ "$1" = "C18" ] || [ "$1" = "build-all" ] || { [ "$1" = "replay" ] && case "$2" in *C18*) true;; *) false;; esac; }; then
 	if ! build_c18; then
-		echo "HARNESS-ERROR: C18 build failed"; cat .bin/build-inst.log .bin/build-race.log 2>/dev/null | tail -20; exit 2
+		echo "HARNESS-ERROR: C18 build failed"; cat .bin/build-inst$SUF.log .bin/build-race$SUF.log 2>/dev/null | tail -20; exit 2
 	fi
 fi
 case "$1" in
